@@ -36,6 +36,23 @@ def restrictL (keep : Acc) (sup : Bool) : List T → List T
     | none => restrictL keep sup cs
 end
 
+mutual
+/-- the specification of recursive leaf filtering with an ARBITRARY filter (`filter_leaf_nodes(recursive=True)` by its
+    docstring): leaves the filter rejects go; a node all of whose children went has become a leaf and is asked as well.
+    `none`: the seed itself goes.  (Suppression is applied afterwards by `T.sup`.) -/
+def restrictA (acc : Acc) : T → Option T
+  | .node i x l s [] => if acc i x then some (.node i x l s []) else none
+  | .node i x l s (c :: cs) =>
+    match restrictAL acc (c :: cs) with
+    | [] => if acc i x then some (.node i x l s []) else none
+    | ks => some (.node i x l s ks)
+def restrictAL (acc : Acc) : List T → List T
+  | [] => []
+  | c :: cs => match restrictA acc c with
+    | some r => r :: restrictAL acc cs
+    | none => restrictAL acc cs
+end
+
 /-! ## leaf-removal loop (`filter_leaf_nodes`, `prune_leaves_without_taxa`) -/
 def rejected (acc : Acc) (t : T) : Bool := t.isLeaf && !acc t.id t.taxon
 
@@ -186,6 +203,19 @@ def ExRes.toOption : ExRes → Option T
   | .ok t => some t
   | _ => none
 
+/-- `Node.extract_subtree` called on an arbitrary node `startId` of the tree (not only the seed).  A start node that has a
+    parent never raises `SeedNodeDeletionException`; when nothing of it is left the call ends in `ValueError`.  A start node
+    left with a single cloned child is merged into that child like any other node (the clone returned is that child, with the
+    start node's edge length added) -/
+def extractNode (acc : Acc) (fl fi sup : Bool) (t : T) (startId : Nat) : ExRes :=
+  if startId == t.id then extractTree acc fl fi sup t else
+  match t.find? startId with
+  | none => .valueError
+  | some sub =>
+    match extractTree acc fl fi sup sub with
+    | .ok r => .ok r
+    | _ => .valueError
+
 /-- the filter the four `extract_tree_with(out)_taxa(_labels)` wrappers build: taxon-less nodes pass -/
 def taxonFilter (K : Nat → Bool) : Acc := fun _ x => match x with
   | none => true
@@ -195,5 +225,97 @@ def taxonFilter (K : Nat → Bool) : Acc := fun _ x => match x with
 def keepTaxa (K : Nat → Bool) : Acc := fun _ x => match x with
   | none => false
   | some k => K k
+
+/-! ## measurement functions the clause theorems are stated with (the driver runs them: op `measure`) -/
+mutual
+def ids : T → List Nat
+  | .node i _ _ _ cs => i :: idsL cs
+def idsL : List T → List Nat
+  | [] => []
+  | c :: cs => ids c ++ idsL cs
+end
+
+mutual
+/-- node records in pre-order: (id, taxon, length, label) -/
+def heads : T → List (Nat × Option Nat × Option Frac × Option String)
+  | .node i x l s cs => (i, x, l, s) :: headsL cs
+def headsL : List T → List (Nat × Option Nat × Option Frac × Option String)
+  | [] => []
+  | c :: cs => heads c ++ headsL cs
+end
+
+mutual
+def NoUnary : T → Prop
+  | .node _ _ _ _ cs => cs.length ≠ 1 ∧ NoUnaryL cs
+def NoUnaryL : List T → Prop
+  | [] => True
+  | c :: cs => NoUnary c ∧ NoUnaryL cs
+end
+
+mutual
+/-- the lengths on the path from the first kept leaf up to (and including) this node's own edge, accumulated the way
+    suppression does it (`child.length += parent.length`, `addLen`) -/
+def pathAcc (keep : Acc) : T → Option (Option Frac)
+  | .node i x l _ [] => if keep i x then some l else none
+  | .node _ _ l _ (c :: cs) => (pathAccL keep (c :: cs)).map (fun a => addLen a l)
+def pathAccL (keep : Acc) : List T → Option (Option Frac)
+  | [] => none
+  | c :: cs => match pathAcc keep c with
+    | some a => some a
+    | none => pathAccL keep cs
+end
+
+/-- the record of a node -/
+def head (t : T) : Nat × Option Nat × Option Frac × Option String := (t.id, t.taxon, t.len, t.label)
+
+mutual
+/-- some leaf at or below the node is kept -/
+def alive (keep : Acc) : T → Bool
+  | .node i x _ _ [] => keep i x
+  | .node _ _ _ _ (c :: cs) => aliveL keep (c :: cs)
+def aliveL (keep : Acc) : List T → Bool
+  | [] => false
+  | c :: cs => alive keep c || aliveL keep cs
+end
+
+mutual
+/-- parent/child pairs in pre-order: (parent id, child subtree) -/
+def pedges : T → List (Nat × T)
+  | .node i _ _ _ cs => pedgesL i cs
+def pedgesL (p : Nat) : List T → List (Nat × T)
+  | [] => []
+  | c :: cs => (p, c) :: (pedges c ++ pedgesL p cs)
+end
+
+mutual
+/-- executable path length (exact fractions, `none` = no length) from node `t`, its own edge excluded, to the first `p`-leaf -/
+def reachF (p : Acc) : T → Option (Option Frac)
+  | .node i x _ _ [] => if p i x then some none else none
+  | .node _ _ _ _ (c :: cs) => reachFL p (c :: cs)
+def reachFL (p : Acc) : List T → Option (Option Frac)
+  | [] => none
+  | c :: cs => match reachF p c with
+    | some d => some (addLen d c.len)
+    | none => reachFL p cs
+end
+
+mutual
+/-- executable path length between the first `p`-leaf and the first `q`-leaf (in different child subtrees of their junction) -/
+def distF (p q : Acc) : T → Option (Option Frac)
+  | .node _ _ _ _ cs => distFL p q cs
+def distFL (p q : Acc) : List T → Option (Option Frac)
+  | [] => none
+  | c :: cs => match reachF p c, reachF q c with
+    | some _, some _ => distF p q c
+    | some x, none => (reachFL q cs).map (fun y => addLen (addLen x c.len) y)
+    | none, some y => (reachFL p cs).map (fun x => addLen x (addLen y c.len))
+    | none, none => distFL p q cs
+end
+
+/-- leaf-to-leaf path lengths for all pairs of leaves (by node id), in leaf order -/
+def allDists (t : T) : List (Nat × Nat × Option Frac) :=
+  let ls := t.leaves.map T.id
+  ls.flatMap (fun a => (ls.filter (fun b => a < b)).filterMap (fun b =>
+    (distF (fun i _ => i == a) (fun i _ => i == b) t).map (fun d => (a, b, d))))
 
 end DendroModel.C08
